@@ -727,6 +727,29 @@ for m in importers:
                     break
         except Exception as e:
             stale.append(m + '.CryptAES (' + type(e).__name__ + ')')
+# CBC / ECB drivers of the built-in AES on messages of many lengths, incl. several 64 KiB boundaries: round trip, and the CBC
+# definition itself (P_i = D(C_i) xor C_{i-1}, C_0 = IV) against the ECB driver
+def _xor(a, b):
+    return bytes(x ^ y for x, y in zip(a, b))
+for klen in (16, 32):
+    key, iv = bytes(range(klen)), bytes(range(100, 116))
+    for n_ in (16, 32, 4096, 65536 - 16, 65536, 65536 + 16, 65536 + 48, 2 * 65536 + 32):
+        msg = bytes((i_ * 7 + n_) % 251 for i_ in range(n_))
+        try:
+            ct = A.aes_cbc_encrypt(key, iv, msg)
+            back = A.aes_cbc_decrypt(key, iv, ct)
+            ref = b''.join(_xor(A.aes_ecb_decrypt(key, ct[o:o + 16]), (iv if o == 0 else ct[o - 16:o])) for o in range(0, len(ct), 16))
+            if back != msg or ref != msg:
+                bad = next((o for o in range(0, n_, 16) if back[o:o + 16] != msg[o:o + 16]), None)
+                stale.append('aes_cbc_decrypt(aes_cbc_encrypt(m)) != m for a %d-byte key and len(m) = %d (first wrong block at byte %s; CBC definition over the ECB driver gives m: %s)'
+                             % (klen, n_, bad, ref == msg))
+                break
+            if A.aes_ecb_decrypt(key, A.aes_ecb_encrypt(key, msg[:4096])) != msg[:4096]:
+                stale.append('aes_ecb_decrypt(aes_ecb_encrypt(m)) != m for a %d-byte key' % klen)
+                break
+        except Exception as e:
+            stale.append('AES driver raised %s for len(m) = %d' % (type(e).__name__, n_))
+            break
 print(json.dumps({'provider': pypdf._crypt_providers.crypt_provider[0], 'returned': ret, 'importers': importers, 'stale': stale, 'stub': stub}))
 """
 
@@ -755,7 +778,7 @@ def aes_patch_check():
         r = embedded_pdfs(only=("AES-256",)) or embedded_pdfs(only=("AES-128",))
         rec = fail("patch_pypdf_fallback_aes", {"process": "fresh", "provider": pb["provider"]},
                    "returns True, every pypdf module that bound the AES names resolves them to the built-in AES, and "
-                   "CryptAES.decrypt(CryptAES.encrypt(m)) == m for every length of m in 0..49",
+                   "CryptAES.decrypt(CryptAES.encrypt(m)) == m for every length of m in 0..49, CBC/ECB round trips up to 128 KiB",
                    f"returned {pb['returned']}; not as expected after the patch: {pb['stale'][:4]}")
         if r is not None:
             rec["inputs"].update(r["inputs"])
